@@ -119,6 +119,15 @@ func c15Stream(base []byte, starts []int, cs c15Case) []byte {
 	case "frag":
 		s := binary.BigEndian.AppendUint32(nil, cs.Val)
 		return append(s, base[:cs.Pos]...)
+	case "multi":
+		// cs.Pos non-final fragments of cs.Val bytes each, all delivered, then a final 4-byte fragment
+		var s []byte
+		for i := 0; i < cs.Pos; i++ {
+			s = binary.BigEndian.AppendUint32(s, cs.Val)
+			s = append(s, make([]byte, cs.Val)...)
+		}
+		s = binary.BigEndian.AppendUint32(s, 0x80000004)
+		return append(s, 0, 0, 0, 0)
 	}
 	return nil
 }
@@ -133,8 +142,9 @@ func c15One(c *vCtx, cs c15Case) {
 	var out []byte
 	var returned, closed bool
 	var pan any
+	unread := 0
 	alloc := allocDelta(func() {
-		out, returned, closed, pan = vServeStream(w.e, stream, "10.0.0.1", 800, 120*time.Second)
+		out, returned, closed, pan, unread = vServeStreamN(w.e, stream, "10.0.0.1", 800, 120*time.Second)
 	})
 	sigk := cs.Kind
 	bad := func(sig, msg string) { c.violation("C15|"+sig+"|stream="+sigk, msg, cs) }
@@ -147,6 +157,13 @@ func c15One(c *vCtx, cs c15Case) {
 	}
 	if !closed {
 		bad("connection-not-closed", "the handler returned without closing the connection")
+	}
+	if cs.Kind == "multi" && int(cs.Val)*cs.Pos+4 > 1<<20 {
+		// one record larger than the documented 1 MiB maximum: the stream is undecodable from the
+		// fragment header that crosses the limit, the server must stop reading there
+		if consumed := len(stream) - unread; consumed > 1<<20+4*(cs.Pos+1)+65536 {
+			bad("oversize-record-buffered", fmt.Sprintf("the server consumed %d bytes of a single record made of %d fragments of %d bytes; the documented maximum is %d", consumed, cs.Pos, cs.Val, 1<<20))
+		}
 	}
 	if lim := uint64(6<<20 + 16*len(stream)); alloc > lim {
 		bad("allocation-exceeds-bounds", fmt.Sprintf("%d bytes allocated while serving a %d-byte stream", alloc, len(stream)))
@@ -193,7 +210,7 @@ func init() {
 	vRegister(&vCheck{
 		id: "C15", level: "exploration", flavour: "vtime",
 		shards: func(string) int { return 16 },
-		rule: "bounded-exhaustive byte streams derived from a base stream of one valid record-marked call per NFSv3 procedure (22) and MOUNT procedure (6): (a) every byte-prefix (connection cut at every point); (b) every byte of every record's first 56 bytes (thorough: every byte of the stream) replaced by each of {0x00,0x01,0x7F,0x80,0xFF}; (c) every aligned 32-bit word of the stream (fragment headers, lengths, counts, handles, discriminants) replaced by each of {0,2^16,2^31-1,2^31,2^32-1}; (d) every stream of 1..3 words over {0,1,2,3,0x80000000,0x80000004,0x80000028,100003,100005,0xFFFFFFFF}; (e) fragment headers declaring 2^20+1 / 2^31-1 / 2^20 bytes followed by 0, 4 and 2800 bytes. Each stream is fed to the real handleConnectionWithRecordMarking over a scripted connection on a fresh server. Oracle: no panic escapes, the handler returns and closes the connection once the client side is closed, replies are record-marked well-formed RPC replies whose xids are a prefix of the xids of the decodable calls in arrival order (independent parser), allocation stays below 6 MiB + 16 x stream length, and a probe connection (NULL + GETATTR) is then answered. A crash of the process is caught by the driver.",
+		rule: "bounded-exhaustive byte streams derived from a base stream of one valid record-marked call per NFSv3 procedure (22) and MOUNT procedure (6): (a) every byte-prefix (connection cut at every point); (b) every byte of every record's first 56 bytes (thorough: every byte of the stream) replaced by each of {0x00,0x01,0x7F,0x80,0xFF}; (c) every aligned 32-bit word of the stream (fragment headers, lengths, counts, handles, discriminants) replaced by each of {0,2^16,2^31-1,2^31,2^32-1}; (d) every stream of 1..3 words over {0,1,2,3,0x80000000,0x80000004,0x80000028,100003,100005,0xFFFFFFFF}; (e) fragment headers declaring 2^20+1 / 2^31-1 / 2^20 bytes followed by 0, 4 and 2800 bytes; (f) records made of 2..40 fully delivered non-final fragments of 64 KiB / 512 KiB / 1 MiB each (each within the limit, the sum below, at and above 1 MiB): above the limit the server must stop reading within 64 KiB of the limit. Each stream is fed to the real handleConnectionWithRecordMarking over a scripted connection on a fresh server. Oracle: no panic escapes, the handler returns and closes the connection once the client side is closed, replies are record-marked well-formed RPC replies whose xids are a prefix of the xids of the decodable calls in arrival order (independent parser), allocation stays below 6 MiB + 16 x stream length, and a probe connection (NULL + GETATTR) is then answered. A crash of the process is caught by the driver.",
 		assumptions: []string{"'decodable call' is decided by an independent record/RPC-header parser; the server may stop answering earlier (after a call it cannot process) but never answers out of order or more often",
 			"allocation is measured with runtime.MemStats over the whole stream (server goroutines included), collector off"},
 		run: func(c *vCtx) {
@@ -240,6 +257,10 @@ func init() {
 				for _, n := range []int{0, 4, len(base)} {
 					cases = append(cases, c15Case{Kind: "frag", Val: h, Pos: n})
 				}
+			}
+			// (f) records made of several fragments that are each within the limit
+			for _, m := range [][2]int{{512 << 10, 2}, {512 << 10, 3}, {512 << 10, 8}, {1 << 20, 2}, {1 << 20, 4}, {64 << 10, 15}, {64 << 10, 17}, {64 << 10, 40}, {1, 3}} {
+				cases = append(cases, c15Case{Kind: "multi", Val: uint32(m[0]), Pos: m[1]})
 			}
 			for i, cs := range cases {
 				if !c.mine(i) {
